@@ -23,10 +23,12 @@ import (
 	"encoding/hex"
 	"fmt"
 	"os"
+	goruntime "runtime"
 	"runtime/debug"
 	"sort"
 	"strconv"
 	"strings"
+	"sync/atomic"
 	"time"
 
 	cluster "github.com/envoyproxy/go-control-plane/envoy/config/cluster/v3"
@@ -49,6 +51,7 @@ import (
 	"istio.io/istio/pilot/pkg/features"
 	"istio.io/istio/pilot/pkg/model"
 	"istio.io/istio/pilot/pkg/networking/core"
+	"istio.io/istio/pilot/pkg/serviceregistry/provider"
 	"istio.io/istio/pilot/pkg/util/protoconv"
 	pxds "istio.io/istio/pilot/pkg/xds"
 	txds "istio.io/istio/pilot/test/xds"
@@ -116,8 +119,40 @@ func (c permCase) proxies() []proxySpec {
 	return proxySpecs
 }
 
+// profileEpoch is bumped when the watchdog abandons a mesh: the restore function of that mesh must not run any more.
+var profileEpoch int64
+
+var baseProfile = [4]any{features.EnableAmbient, features.EnableAmbientWaypoints, features.SidecarPickBestServiceNamespace, features.ConvertSidecarScopeConcurrency}
+
+func resetProfile() {
+	features.EnableAmbient, features.EnableAmbientWaypoints = baseProfile[0].(bool), baseProfile[1].(bool)
+	features.SidecarPickBestServiceNamespace, features.ConvertSidecarScopeConcurrency = baseProfile[2].(bool), baseProfile[3].(int)
+}
+
+func meshTimeout() time.Duration {
+	if s := atoi(os.Getenv("C17_MESH_TIMEOUT_S")); s > 0 {
+		return time.Duration(s) * time.Second
+	}
+	return 240 * time.Second
+}
+
+// stuckSite: the first frames of the first goroutine that is inside the harness' runCase.
+func stuckSite(stacks string) string {
+	for _, g := range strings.Split(stacks, "\n\n") {
+		if strings.Contains(g, "main.runCase") {
+			l := strings.Split(g, "\n")
+			if len(l) > 9 {
+				l = l[:9]
+			}
+			return strings.Join(l, " | ")
+		}
+	}
+	return "?"
+}
+
 // setProfile switches the process-wide feature flags of the profile on; the returned function restores them.
 func (c permCase) setProfile() func() {
+	epoch := atomic.LoadInt64(&profileEpoch)
 	a, w, pb, cc := features.EnableAmbient, features.EnableAmbientWaypoints, features.SidecarPickBestServiceNamespace, features.ConvertSidecarScopeConcurrency
 	if c.prof == "waypoint" {
 		features.EnableAmbient, features.EnableAmbientWaypoints = true, true
@@ -129,6 +164,9 @@ func (c permCase) setProfile() func() {
 		features.ConvertSidecarScopeConcurrency = 4
 	}
 	return func() {
+		if atomic.LoadInt64(&profileEpoch) != epoch {
+			return // abandoned by the watchdog
+		}
 		features.EnableAmbient, features.EnableAmbientWaypoints, features.SidecarPickBestServiceNamespace, features.ConvertSidecarScopeConcurrency = a, w, pb, cc
 	}
 }
@@ -276,6 +314,8 @@ type world struct {
 	proxies  []proxySpec
 	shared   map[string]bool // "ns/host" claimed by two or more ServiceEntries of that namespace
 	multiNet bool            // the mesh has two networks: the proxies live on n1
+	kindSeed uint64          // seeds the choice of the kind named by an incremental PushContext rebuild
+	incrUsed map[string]int  // kinds used so far (evidence counter)
 }
 
 // sharedHosts lists the "namespace/host" keys that several ServiceEntries of one namespace claim.
@@ -334,7 +374,12 @@ func buildWorld(objs []obj, early int, mc *meshconfig.MeshConfig, nets *meshconf
 	w := &world{f: &failer{}}
 	var cfgs []config.Config
 	var k8s []runtime.Object
+	var earlyShards []*shardSpec
 	for _, o := range objs[:early] {
+		if o.shard != nil {
+			earlyShards = append(earlyShards, o.shard)
+			continue
+		}
 		if o.cfg != nil {
 			cfgs = append(cfgs, o.cfg.DeepCopy())
 		} else {
@@ -353,7 +398,14 @@ func buildWorld(objs []obj, early int, mc *meshconfig.MeshConfig, nets *meshconf
 	}
 	w.s = txds.NewFakeDiscoveryServer(w.f, opts)
 	quiet.Silence()
+	for _, sh := range earlyShards {
+		w.pushShard(sh)
+	}
 	for _, o := range objs[early:] {
+		if o.shard != nil {
+			w.pushShard(o.shard)
+			continue
+		}
 		if o.cfg != nil {
 			if _, err := w.s.Store().Create(o.cfg.DeepCopy()); err != nil {
 				panic(fmt.Sprintf("late create %s: %v", o.desc, err))
@@ -368,6 +420,15 @@ func buildWorld(objs []obj, early int, mc *meshconfig.MeshConfig, nets *meshconf
 		}
 	}
 	return w
+}
+
+// pushShard hands the endpoints of a second cluster to the server the way a remote registry does.
+func (w *world) pushShard(sh *shardSpec) {
+	eps := make([]*model.IstioEndpoint, 0, len(sh.eps))
+	for _, e := range sh.eps {
+		eps = append(eps, e.DeepCopy())
+	}
+	w.s.Discovery.EDSUpdate(model.ShardKey{Cluster: "c2", Provider: provider.Kubernetes}, sh.host, sh.ns, eps)
 }
 
 // fingerprint is the order-insensitive content of the control plane's state: which configs,
@@ -767,8 +828,16 @@ func (w *world) snapshot(prev *model.PushContext, rep int, cached bool) (snapsho
 		if k := os.Getenv("C17_INCR_KIND"); k != "" {
 			rep = atoi(k)
 		}
+		// the kind is drawn per (mesh, process, generation): every kind of incrKinds is used, in every position
+		ki := wire.NewRng(w.kindSeed + uint64(rep)*0x9e3779b9).Intn(len(incrKinds))
+		if os.Getenv("C17_INCR_KIND") != "" {
+			ki = rep % len(incrKinds)
+		}
+		if w.incrUsed != nil {
+			w.incrUsed[incrKinds[ki].String()]++
+		}
 		push.InitContext(env, prev, &model.PushRequest{
-			ConfigsUpdated: sets.New(model.ConfigKey{Kind: incrKinds[rep%len(incrKinds)], Name: "does-not-matter", Namespace: "default"}),
+			ConfigsUpdated: sets.New(model.ConfigKey{Kind: incrKinds[ki], Name: "does-not-matter", Namespace: "default"}),
 			Reason:         model.NewReasonStats(model.ConfigUpdate),
 		})
 	}
@@ -821,7 +890,8 @@ func (w *world) snapshot(prev *model.PushContext, rep int, cached bool) (snapsho
 		// delta paths
 		out[ps.name+":DCDS"], out[ps.name+":DCDS.removed"] = deltaCDS(w, p, push, cds)
 		out[ps.name+":DLDS.removed"] = deltaRemoved(w, p, push, "LDS", lds, []string{"10.255.0.9_80", "10.255.0.1_443", "0.0.0.0_12345", "gone_listener"})
-		out[ps.name+":DRDS.removed"] = deltaRemoved(w, p, push, "RDS", toResources(rds), []string{"12345", "gone.example.com:80", "http.9999", "8081"})
+		// (no DRDS.removed: BuildHTTPRoutes answers EVERY requested route name, unknown ones with an empty route
+		// configuration, so a delta RDS push never removes anything - the key was empty in all observations)
 		// cache keys of the sidecar route configurations
 		if p.Type == model.SidecarProxy {
 			var keys []resource
@@ -870,12 +940,16 @@ type caseRun struct {
 	snaps     []snapshot          // kept only when `keepRaw`
 	runTag    []string            // "k/r" of each run
 	unsettled string
+	timedOut  string // abandoned by the per-mesh watchdog
 	panicked  string // a panic of the real code or of the harness while running the case
 	stateDiff string // first difference of a stable-but-different state (explain)
 	nres      int
 	nobjs     int
-	svcs      int // services listed by the registries in build 0
-	dupKeys   int // of which share the whole comparator key with another one (hypothesis of sortServices_canonical)
+	incrUsed  map[string]int // kinds named by the incremental PushContext rebuilds
+	ms        int64          // wall time of the case
+	settleMs  int64          // of which waiting for the control plane to settle
+	svcs      int            // services listed by the registries in build 0
+	dupKeys   int            // of which share the whole comparator key with another one (hypothesis of sortServices_canonical)
 }
 
 // insertionOrder: build 0 inserts in generation order before start; the others shuffle and insert a
@@ -928,7 +1002,9 @@ func runCase(c permCase, keepRaw bool) (cr *caseRun) {
 	mc := c.meshConfig()
 	nets := c.meshNetworks()
 	defer c.setProfile()()
-	cr = &caseRun{digests: map[string][]string{}, nobjs: len(objs)}
+	cr = &caseRun{digests: map[string][]string{}, nobjs: len(objs), incrUsed: map[string]int{}}
+	t0case := time.Now()
+	defer func() { cr.ms = time.Since(t0case).Milliseconds() }()
 	shared := sharedHosts(objs)
 	want := ""
 	var wantLines []string
@@ -937,9 +1013,13 @@ func runCase(c permCase, keepRaw bool) (cr *caseRun) {
 		order, early := insertionOrder(c, objs, k)
 		w := buildWorld(order, early, mc, nets)
 		w.multiNet = nets != nil
+		w.kindSeed = c.seed*7 + uint64(atoi(os.Getenv("C17_PROC")))*1000003 + uint64(k)*101
+		w.incrUsed = cr.incrUsed
 		w.proxies = c.proxies()
 		w.shared = shared
+		tSettle := time.Now()
 		fp, st := w.settle(want, settleTimeout(), 1500*time.Millisecond)
+		cr.settleMs += time.Since(tSettle).Milliseconds()
 		if q := atoi(os.Getenv("C17_QUIET_MS")); q > 0 && st != moving {
 			// confirmation runs: the state must also survive a long quiet period unchanged
 			for i := 0; i < 5; i++ {
@@ -979,9 +1059,9 @@ func runCase(c permCase, keepRaw bool) (cr *caseRun) {
 		}
 		var prev *model.PushContext
 		for r := 0; r < c.r; r++ {
-			// every third generation derives its PushContext incrementally from the previous one
+			// every second generation derives its PushContext incrementally from the previous one
 			var from *model.PushContext
-			if r%3 == 2 {
+			if r%2 == 1 {
 				from = prev
 			}
 			snap, push := w.snapshot(from, k*c.r+r, false)
@@ -1026,6 +1106,12 @@ func runCase(c permCase, keepRaw bool) (cr *caseRun) {
 					cr.snaps = append(cr.snaps, csnap)
 					cr.runTag = append(cr.runTag, fmt.Sprintf("build%d/cached", k))
 				}
+				// does the ORDER of an EDS response follow the history of the cache (instead of only the iteration of
+				// the requested name set, which is the known and masked cause)?
+				for name, verdict := range w.edsCacheHistory(push) {
+					cr.add(name+":EDS.cachehistory", "independent")
+					cr.add(name+":EDS.cachehistory", verdict)
+				}
 			}
 		}
 		// the state must not have moved while we were generating
@@ -1052,6 +1138,42 @@ func runCase(c permCase, keepRaw bool) (cr *caseRun) {
 		}
 	}
 	return cr
+}
+
+// edsCacheHistory: an oracle for ONE cause of EDS response order other than map iteration. The EDS generator walks the
+// requested name set in Go map order, so the order of a response is random and cannot be compared between runs
+// (known class perm:response-order:requested-names:EDS). Whatever that order is, it must not depend on which of the
+// names are already in the XDS cache. For the first two EDS clusters {a, b} of a proxy: clear the cache, warm a alone,
+// request {a, b}; ten times; then the same with b warm. Under map iteration the first resource of the answer is
+// distributed the same way in both arrangements; if the warm one is first in ALL twenty answers (probability below
+// 4^-10 under any map order distribution) the order follows the cache history.
+func (w *world) edsCacheHistory(push *model.PushContext) map[string]string {
+	out := map[string]string{}
+	const trials = 10
+	for _, ps := range w.proxies {
+		p := setupProxy(w, ps.mk(), push)
+		names := edsNames(generate(w, p, push, "CDS", nil))
+		if len(names) < 2 {
+			continue
+		}
+		a, b := names[0], names[len(names)-1]
+		warmFirst := 0
+		for _, warm := range []string{a, b} {
+			for t := 0; t < trials; t++ {
+				w.s.Discovery.Cache.ClearAll()
+				generate(w, p, push, "EDS", []string{warm})
+				if res := generate(w, p, push, "EDS", []string{a, b}); len(res) == 2 && res[0].name == warm {
+					warmFirst++
+				}
+			}
+		}
+		out[ps.name] = "independent"
+		if warmFirst == 2*trials {
+			out[ps.name] = "follows-cache"
+		}
+	}
+	w.s.Discovery.Cache.ClearAll()
+	return out
 }
 
 // obsKeys: the observation keys in print order (state first).
@@ -1110,17 +1232,33 @@ func observePerm(in, outp string) {
 		}
 		c := parsePermCase(f)
 		var cr *caseRun
-		func() {
+		done := make(chan *caseRun, 1)
+		go func() {
+			var res *caseRun
 			defer func() {
 				if r := recover(); r != nil {
-					cr = &caseRun{panicked: fmt.Sprint(r) + " @ " + panicSite()}
+					res = &caseRun{panicked: fmt.Sprint(r) + " @ " + panicSite()}
 					if os.Getenv("C17_DEBUG") != "" {
 						panic(r)
 					}
 				}
+				done <- res
 			}()
-			cr = runCase(c, false)
+			res = runCase(c, false)
 		}()
+		// per-mesh watchdog: a mesh that does not finish is logged with the stacks of all goroutines, counted
+		// (`timeout`) and abandoned; the run goes on. The abandoned goroutine may still flip the process-wide feature
+		// flags when it ends, so they are reset here and its own restore is disarmed (profileEpoch).
+		select {
+		case cr = <-done:
+		case <-time.After(meshTimeout()):
+			atomic.AddInt64(&profileEpoch, 1)
+			resetProfile()
+			buf := make([]byte, 1<<20)
+			buf = buf[:goruntime.Stack(buf, true)]
+			fmt.Fprintf(os.Stderr, "WATCHDOG: mesh `%s` did not finish within %v; goroutines:\n%s\n", strings.Join(c.line(), " "), meshTimeout(), buf)
+			cr = &caseRun{timedOut: fmt.Sprintf("no result after %v; stack of the first harness goroutine: %s", meshTimeout(), stuckSite(string(buf)))}
+		}
 		out.Line(append(c.line(), "objs="+strconv.Itoa(cr.nobjs), "res="+strconv.Itoa(cr.nres))...)
 		feats := map[string]int{}
 		for _, o := range c.objects() {
@@ -1140,11 +1278,19 @@ func observePerm(in, outp string) {
 		if c.flag != "" {
 			fl = append(fl, "flag-"+c.flag+":1")
 		}
-		out.Line("info", "feat="+joinElems(fl), "svcs="+strconv.Itoa(cr.svcs), "dupkeys="+strconv.Itoa(cr.dupKeys))
+		var il []string
+		for k, v := range cr.incrUsed {
+			il = append(il, k+":"+strconv.Itoa(v))
+		}
+		sort.Strings(il)
+		out.Line("info", "feat="+joinElems(fl), "svcs="+strconv.Itoa(cr.svcs), "dupkeys="+strconv.Itoa(cr.dupKeys),
+			"incr="+joinElems(il), "ms="+strconv.FormatInt(cr.ms, 10), "settlems="+strconv.FormatInt(cr.settleMs, 10))
 		if cr.stateDiff != "" {
 			out.Line("info", "statediff="+wire.Enc(cr.stateDiff))
 		}
-		if cr.panicked != "" {
+		if cr.timedOut != "" {
+			out.Line("timeout", wire.Enc(cr.timedOut))
+		} else if cr.panicked != "" {
 			out.Line("panic", wire.Enc(cr.panicked))
 		} else if cr.unsettled != "" {
 			out.Line("skip", wire.Enc(cr.unsettled))
@@ -1167,6 +1313,8 @@ func monLine(f []string) string {
 		return "skip"
 	case "panic":
 		return "panic"
+	case "timeout":
+		return "timeout"
 	case "obs":
 		if len(f) < 2 {
 			return "bad-op"
